@@ -324,8 +324,13 @@ def analyze(ctx, want):
     for p in by_var.get("Group", []):
         kind, r = result(p)
         rec = p.calls(r"Nfa::try_from_ast$")
+        if p.end and p.end[0] == "cut":
+            continue        # the flag scan goes on with the next flag item: not a result of the arm
         flagged = [(c, o) for c, o in p.conds if c[0] == "app" and re.search(r"Iterator>::any::", c[1])]
-        if flagged and flagged[-1][1] is True:
+        # `any` analysed as the loop it abbreviates: its call event carries the constant outcome
+        anyc = [e for e in p.calls(r"Iterator>::any::") if len(e) > 8 and e[8] == "desugared"]
+        is_flagged = (flagged and flagged[-1][1] is True) or any(e[4] == ("bool", True) for e in anyc)
+        if is_flagged:
             ob("C15.b", "rejected:flags-in-non-capturing-group", kind == "Err" and err_is_unsupported(r) and not rec, "flagged group -> %s (recursive calls: %d)" % (kind, len(rec)), fn.loc())
             continue
         ok_rec = len(rec) == 1 and S.vstr(rec[0][3][0]) == "(ast as Group).0.ast"
